@@ -469,9 +469,9 @@ var nonJSONKinds = []string{"Complex64", "Complex128", "Chan", "Func", "UnsafePo
 // kindSwitches returns the switches of fd whose tag has type reflect.Kind,
 // with labels mapped to kind names.
 type kindSwitch struct {
-	sw      *ast.SwitchStmt
-	clause  map[string]*ast.CaseClause
-	deflt   *ast.CaseClause
+	sw     *ast.SwitchStmt
+	clause map[string]*ast.CaseClause
+	deflt  *ast.CaseClause
 }
 
 func kindSwitches(info *types.Info, fd *ast.FuncDecl) []*kindSwitch {
